@@ -62,6 +62,52 @@ fn check_sound(c: &SoundCase, st: &mut Stats) -> Verdict {
 }
 
 // ---------------------------------------------------------------------------
+// soundness, marker text: a marker followed by modifier characters but by no component is text
+
+const MARKER_MODIFIERS: [&str; 12] = ["??", "++", "&&", "?+", "+?-&", "&(above)", "&(as said)", "&(x)&(y)", "-", "@", "&", "?&+"];
+// (a continuation that starts with punctuation gets the documented "Invalid single word name" warning: not generated)
+const MARKER_TAILS: [&str; 6] = [" maybe", "", " .", " if you like, or not", " ) already", " \u{a0}"];
+const MARKER_CONTEXTS: [&str; 6] = [
+    "{S}",
+    "Mix @salt{1%g} well. Season to taste {S}",
+    "(as said {S} ) then add @water{1%l}.",
+    "= Sauce\n\nStir.\n\n{S}\n\nServe with #spoon{}.",
+    "Heat #pan{} for ~{5%min}, {S}",
+    "> {S}",
+];
+
+#[derive(Debug, Clone, Serialize, Deserialize)]
+pub struct MarkerCase {
+    pub marker: u8,
+    pub modifiers: u8,
+    pub tail: u8,
+    pub context: u8,
+}
+
+fn marker_text(c: &MarkerCase) -> (String, String) {
+    let snippet = format!("{}{}{}", ["@", "#", "~"][c.marker as usize % 3], MARKER_MODIFIERS[c.modifiers as usize % MARKER_MODIFIERS.len()], MARKER_TAILS[c.tail as usize % MARKER_TAILS.len()]);
+    (MARKER_CONTEXTS[c.context as usize % MARKER_CONTEXTS.len()].replace("{S}", &snippet), snippet)
+}
+
+fn check_marker_text(c: &MarkerCase, st: &mut Stats) -> Verdict {
+    let (src, snippet) = marker_text(c);
+    st.sample(|| json!({"source": src}));
+    let res = match guard(|| parser(EXT_ALL, 1).parse(&src)) {
+        Ok(r) => r,
+        Err(p) => vbail!("c07.panic", "parse panicked: {p}; source {src:?}"),
+    };
+    let diags: Vec<String> = res.report().iter().map(|d| format!("{:?} {} {:?}", d.severity, d.message, d.labels)).collect();
+    vensure!(
+        diags.is_empty(),
+        "c07.error-on-well-formed",
+        "`{snippet}` has no name and no braces, so it is text, yet the extended parser reports {diags:?}; source {src:?}"
+    );
+    vensure!(res.is_valid(), "c07.validity-definition", "no errors but is_valid() is false; source {src:?}");
+    st.nontrivial(&src);
+    Ok(())
+}
+
+// ---------------------------------------------------------------------------
 // completeness / placement
 
 #[derive(Debug, Clone, Serialize, Deserialize)]
@@ -289,6 +335,7 @@ pub fn run(tier: Tier) -> i32 {
     run.replay_regressions(&|part, j| match part {
         "soundness" => check_sound(&case_from(j)?, &mut Stats::default()),
         "injected" => check_inject(&case_from(j)?, &mut Stats::default()),
+        "marker-text" => check_marker_text(&case_from(j)?, &mut Stats::default()),
         _ => replay_input(j, &structure_oracle),
     });
     if !run.failed() {
@@ -299,6 +346,16 @@ pub fn run(tier: Tier) -> i32 {
             || (raw_recipe(None), proptest::collection::vec(0usize..N_EXT, 3)).prop_map(|(raw, subsets)| SoundCase { raw, subsets }),
             tier.pick(20_000, 2_000_000),
             check_sound,
+        );
+    }
+    if !run.failed() {
+        run_prop(
+            &mut run,
+            "marker-text",
+            "a marker (@ # ~) followed by one of 12 runs of modifier characters (doubled, mixed, with parenthesised text) and one of 6 continuations that are no name and no braces, in 6 well-formed contexts, under the extended parser: it is text, so no diagnostic at all and a valid result; every case is non-trivial",
+            || (0u8..3, 0u8..MARKER_MODIFIERS.len() as u8, 0u8..MARKER_TAILS.len() as u8, 0u8..MARKER_CONTEXTS.len() as u8).prop_map(|(marker, modifiers, tail, context)| MarkerCase { marker, modifiers, tail, context }),
+            tier.pick(3_000, 30_000),
+            check_marker_text,
         );
     }
     if !run.failed() {
@@ -327,6 +384,7 @@ pub fn replay(part: &str, j: &serde_json::Value) -> Verdict {
     match part {
         "soundness" => check_sound(&case_from(j)?, &mut Stats::default()),
         "injected" => check_inject(&case_from(j)?, &mut Stats::default()),
+        "marker-text" => check_marker_text(&case_from(j)?, &mut Stats::default()),
         _ => replay_input(j, &structure_oracle),
     }
 }
